@@ -47,6 +47,38 @@ pub fn cross_log(sim: &Sim) -> serde_json::Value {
     })
 }
 
+/// Structure only (event statuses, kinds of observation incl. ownership-probe outcomes, shapes): what
+/// must not depend on the float width even when the values are not exactly representable.
+pub fn structural_digest(sim: &Sim) -> u64 {
+    let mut h = Fnv::default();
+    h.bytes(&sim.status_log);
+    for r in &sim.obs_log {
+        h.u64(r.event as u64);
+        h.str(r.kind);
+        h.u64(r.slot as u64);
+        match &r.obs {
+            None => h.u64(0),
+            Some(o) => h.usizes(&o.dims),
+        }
+    }
+    h.0
+}
+
+pub fn structural_log(sim: &Sim) -> serde_json::Value {
+    json!({
+        "status": sim.status_log,
+        "obs": sim.obs_log.iter().map(|r| json!({"event": r.event, "kind": r.kind, "slot": r.slot, "dims": r.obs.as_ref().map(|o| o.dims.clone())})).collect::<Vec<_>>(),
+    })
+}
+
+pub fn run_trace_smooth(events: &[Ev]) -> Sim {
+    let mut sim = Sim::new(SimCfg { regime: Regime::Smooth, monitors: false, guard_mag: false, silent: false });
+    let mut src = crate::train::ListSource { evs: events, i: 0 };
+    let mut rec = Vec::new();
+    crate::train::drive(&mut sim, &mut src, &mut rec);
+    sim
+}
+
 /// Worker loop of the f32 binary: `D <trace json>` -> digest, `L <trace json>` -> full log.
 pub fn worker() -> i32 {
     let stdin = std::io::stdin();
@@ -69,8 +101,18 @@ pub fn worker() -> i32 {
                 continue;
             }
         };
-        let sim = run_trace_guarded(&evs);
         let mut o = stdout.lock();
+        if cmd == "S " || cmd == "T " {
+            let sim = run_trace_smooth(&evs);
+            if cmd == "S " {
+                let _ = writeln!(o, "{:016x}", structural_digest(&sim));
+            } else {
+                let _ = writeln!(o, "{}", structural_log(&sim));
+            }
+            let _ = o.flush();
+            continue;
+        }
+        let sim = run_trace_guarded(&evs);
         if cmd == "D " {
             let _ = writeln!(o, "{:016x}", cross_digest(&sim));
         } else {
@@ -124,6 +166,8 @@ pub struct CrossOut {
     pub mismatches: Vec<(String, u64, u64, Vec<Ev>, String)>,
     pub harness_errors: u64,
     pub sample: Option<serde_json::Value>,
+    pub structural_runs: u64,
+    pub structural_diverged_by_guard: u64,
 }
 
 fn first_difference(a: &serde_json::Value, b: &serde_json::Value) -> String {
@@ -148,7 +192,7 @@ pub fn cross(base: u64, nruns: u64, wall_cap_s: f64) -> CrossOut {
     let start = Instant::now();
     let profiles = ["C01", "C03", "C09", "C10", "C11", "C13", "C18", "C12"];
     let counter = Arc::new(AtomicU64::new(0));
-    let out = Arc::new(Mutex::new(CrossOut { runs: 0, compared_events: 0, compared_observations: 0, nontrivial: 0, mismatches: vec![], harness_errors: 0, sample: None }));
+    let out = Arc::new(Mutex::new(CrossOut { runs: 0, compared_events: 0, compared_observations: 0, nontrivial: 0, mismatches: vec![], harness_errors: 0, sample: None, structural_runs: 0, structural_diverged_by_guard: 0 }));
     let mut hs = Vec::new();
     for _ in 0..workers() {
         let counter = counter.clone();
@@ -164,7 +208,7 @@ pub fn cross(base: u64, nruns: u64, wall_cap_s: f64) -> CrossOut {
                             return;
                         }
                     };
-                    let mut local = CrossOut { runs: 0, compared_events: 0, compared_observations: 0, nontrivial: 0, mismatches: vec![], harness_errors: 0, sample: None };
+                    let mut local = CrossOut { runs: 0, compared_events: 0, compared_observations: 0, nontrivial: 0, mismatches: vec![], harness_errors: 0, sample: None, structural_runs: 0, structural_diverged_by_guard: 0 };
                     loop {
                         let i = counter.fetch_add(1, Ordering::Relaxed);
                         if i >= nruns || start.elapsed().as_secs_f64() > wall_cap_s {
@@ -172,6 +216,50 @@ pub fn cross(base: u64, nruns: u64, wall_cap_s: f64) -> CrossOut {
                         }
                         let pname = profiles[(i % profiles.len() as u64) as usize];
                         let seed = derive(base, &format!("C19x/{}", pname), i);
+                        if (i / profiles.len() as u64) % 4 == 3 {
+                            // structural comparison on non-integer data
+                            let mut p = profile(pname);
+                            p.smooth_pct = 100;
+                            let mut gen = Gen::new(seed, p);
+                            let mut sim = Sim::new(SimCfg { regime: Regime::Smooth, monitors: false, guard_mag: false, silent: false });
+                            let mut trace = Vec::new();
+                            crate::train::drive(&mut sim, &mut gen, &mut trace);
+                            let tj = serde_json::to_string(&trace).unwrap();
+                            let d32 = match child.ask("S ", &tj) {
+                                Some(s) => s,
+                                None => {
+                                    local.harness_errors += 1;
+                                    break;
+                                }
+                            };
+                            local.structural_runs += 1;
+                            if d32 != format!("{:016x}", structural_digest(&sim)) {
+                                let l32: serde_json::Value = child.ask("T ", &tj).and_then(|s| serde_json::from_str(&s).ok()).unwrap_or(json!({}));
+                                let l64 = structural_log(&sim);
+                                // a harness guard (domain, magnitude, conformance tolerance) that decides differently on
+                                // f32-rounded values is not a property of corgi: stop comparing that run
+                                let (sa, sb) = (l64["status"].as_array().cloned().unwrap_or_default(), l32["status"].as_array().cloned().unwrap_or_default());
+                                let first = (0..sa.len().max(sb.len())).find(|k| sa.get(*k) != sb.get(*k));
+                                let by_guard = match first {
+                                    Some(k) => {
+                                        let a = sa.get(k).and_then(|x| x.as_u64()).unwrap_or(0);
+                                        let b = sb.get(k).and_then(|x| x.as_u64()).unwrap_or(0);
+                                        a == 4 || b == 4 || a == 5 || b == 5
+                                    }
+                                    None => false,
+                                };
+                                let branchy = trace.iter().any(|e| matches!(e, Ev::CondBuild { .. }));
+                                if by_guard || (first.is_none() && branchy) {
+                                    local.structural_diverged_by_guard += 1;
+                                } else {
+                                    let diff = first_difference(&l64, &l32);
+                                    if !diff.starts_with("digests differ") {
+                                        local.mismatches.push((format!("{}~smooth", pname), i, seed, trace, diff));
+                                    }
+                                }
+                            }
+                            continue;
+                        }
                         let mut p = profile(pname);
                         p.smooth_pct = 0;
                         p.integer_only = true;
@@ -216,6 +304,8 @@ pub fn cross(base: u64, nruns: u64, wall_cap_s: f64) -> CrossOut {
                     o.compared_observations += local.compared_observations;
                     o.nontrivial += local.nontrivial;
                     o.harness_errors += local.harness_errors;
+                    o.structural_runs += local.structural_runs;
+                    o.structural_diverged_by_guard += local.structural_diverged_by_guard;
                     o.mismatches.extend(local.mismatches);
                     if o.sample.is_none() {
                         o.sample = local.sample;
@@ -235,6 +325,23 @@ pub fn cross(base: u64, nruns: u64, wall_cap_s: f64) -> CrossOut {
 
 /// Re-judges a cross-build replay: returns the first difference, if any.
 pub fn cross_replay(events: &[Ev]) -> Result<Option<String>, String> {
+    cross_replay_mode(events, false)
+}
+
+pub fn cross_replay_mode(events: &[Ev], structural: bool) -> Result<Option<String>, String> {
+    if structural {
+        let sim = run_trace_smooth(events);
+        let mut child = Child::spawn().ok_or("cannot start the f32 binary")?;
+        let tj = serde_json::to_string(events).unwrap();
+        let l32: serde_json::Value = child.ask("T ", &tj).and_then(|s| serde_json::from_str(&s).ok()).ok_or("no answer from the f32 binary")?;
+        drop(child.stdin);
+        let _ = child.child.wait();
+        let l64 = structural_log(&sim);
+        if l64 == l32 {
+            return Ok(None);
+        }
+        return Ok(Some(first_difference(&l64, &l32)));
+    }
     crate::sim::FORCE_F32_BOUND.store(true, Ordering::Relaxed);
     let sim = run_trace_guarded(events);
     crate::sim::FORCE_F32_BOUND.store(false, Ordering::Relaxed);
